@@ -1,19 +1,22 @@
 /-
 Relativised versions of `scan_sound` / `algebraicReduction_sound`.
 
-`Sem.RuleSound` (FuraxProofs/Lemmas/Scan.lean) quantifies over ALL pairs `l r`.  For the registered furax
-rules that is too strong: several of them are only correct on operands that passed their constructor's
+`Sem.RuleSound` (FuraxProofs/Lemmas/Scan.lean) quantifies over all pairs `l r` of well-formed (`Sem.ok`, for the
+operator tree: `StructOK`) operands; soundness on ALL pairs is `RuleSoundOn (fun _ => True)`.  For the registered
+furax rules both are too strong: several of them are only correct on operands that passed their constructor's
 validation (for instance `InverseBinaryRule` fires on `DiagonalInverseOperator(o) , o` for ANY `o` and returns
-the empty chain, which is ill typed when `o` is not square; see `inverseBinaryRule_not_RuleSound` in
-FuraxProofs/Lemmas/RuleSound.lean).  Here the same theorems are proved relative to an invariant `P` of the
-operands of the chain, which every rule has to preserve:
+the empty chain, which is ill typed when `o` is not square — see `inverseBinaryRule_not_RuleSound` in
+FuraxProofs/Lemmas/RuleSound.lean — and denotes another map when `o` is square but singular).  Here the same
+theorems are proved relative to an invariant `P` of the operands of the chain, which every rule has to preserve
+and which has to imply well-formedness (`∀ o, P o → sem.ok o`: the law `Sem.honest` is only available for
+well-formed operands):
 
 * `Sem.RuleSoundOn P ru` — on well-typed adjacent pairs `l r` that satisfy `P`, the output of `ru` satisfies
   `P`, is well typed between the same structures and denotes the same map;
 * `scan_sound_on`, `OpSem.algebraicReduction_sound_on` — the scan and `AlgebraicReductionRule.apply` are sound
   on chains whose operands satisfy `P`, and their result again satisfies `P`.
 
-With `P := fun _ => True` these are the unrelativised statements.
+With `P := sem.ok` these are the unrelativised statements (`RuleSound_iff_RuleSoundOn_ok`).
 -/
 import FuraxProofs.Lemmas.Nary
 namespace Furax
@@ -33,26 +36,27 @@ def ListSoundOn (P : O → Prop) (f : List O → List O) : Prop :=
   ∀ ops s t, (∀ o ∈ ops, P o) → sem.WT ops s t →
     (∀ o ∈ f ops, P o) ∧ sem.WT (f ops) s t ∧ ∀ x, sem.mem s x → sem.app (f ops) x = sem.app ops x
 
-theorem RuleSoundOn_of_RuleSound {E} (ru : Rule O E) (h : sem.RuleSound ru) :
-    sem.RuleSoundOn (fun _ => True) ru :=
-  fun l r new _ _ hf hlr => ⟨fun _ _ => trivial, h l r new hf hlr⟩
+/-- `RuleSound` is soundness relative to the well-formedness `sem.ok` of the semantics -/
+theorem RuleSound_iff_RuleSoundOn_ok {E} (ru : Rule O E) : sem.RuleSound ru ↔ sem.RuleSoundOn sem.ok ru :=
+  Iff.rfl
 
-theorem RuleSound_of_RuleSoundOn {E} (P : O → Prop) (hP : ∀ o, P o) (ru : Rule O E)
-    (h : sem.RuleSoundOn P ru) : sem.RuleSound ru :=
-  fun l r new hf hlr => (h l r new (hP l) (hP r) hf hlr).2
+theorem ListSound_iff_ListSoundOn_ok (f : List O → List O) : sem.ListSound f ↔ sem.ListSoundOn sem.ok f :=
+  Iff.rfl
+
+theorem RuleSoundOn_of_RuleSound {E} (ru : Rule O E) (h : sem.RuleSound ru) :
+    sem.RuleSoundOn sem.ok ru := h
+
+/-- under the idealisation that every term satisfies `P` (and `P` implies well-formedness) -/
+theorem RuleSound_of_RuleSoundOn {E} (P : O → Prop) (hP : ∀ o, P o) (hPok : ∀ o, P o → sem.ok o)
+    (ru : Rule O E) (h : sem.RuleSoundOn P ru) : sem.RuleSound ru :=
+  fun l r new _ _ hf hlr =>
+    let ⟨h1, h2⟩ := h l r new (hP l) (hP r) hf hlr
+    ⟨fun o ho => hPok o (h1 o ho), h2⟩
 
 end Sem
 
-theorem mem_splice {O} (ops : List O) (i : Nat) (new : List O) (o : O) (h : o ∈ splice ops i new) :
-    o ∈ ops ∨ o ∈ new := by
-  simp only [splice, List.mem_append] at h
-  rcases h with (h | h) | h
-  · exact .inl (List.mem_of_mem_take h)
-  · exact .inr h
-  · exact .inl (List.mem_of_mem_drop h)
-
 /-- **Typed soundness of the scan relative to an invariant.** -/
-theorem scan_sound_on {O V S E} (sem : Sem O V S) (P : O → Prop) (c : Cfg O E)
+theorem scan_sound_on {O V S E} (sem : Sem O V S) (P : O → Prop) (hPok : ∀ o, P o → sem.ok o) (c : Cfg O E)
     (hr : ∀ ru ∈ c.rules, sem.RuleSoundOn P ru) (hh : sem.ListSoundOn P c.homRule) :
     ∀ fuel ops index res s t, (∀ o ∈ ops, P o) → sem.WT ops s t →
       scan c fuel ops index = .ok (some res) →
@@ -71,21 +75,14 @@ theorem scan_sound_on {O V S E} (sem : Sem O V S) (P : O → Prop) (c : Cfg O E)
         obtain ⟨ru, hmem, hfire⟩ := fireFirst_some _ _ _ _ hf
         have hPl : P ops[index] := hP _ (List.getElem_mem _)
         have hPr : P ops[index+1] := hP _ (List.getElem_mem _)
-        have hs := splice_sound sem ops index newOps s t h hwt
+        have hs := splice_sound sem ops index newOps s t h (fun o ho => hPok o (hP o ho)) hwt
           (fun hlr => (hr ru hmem _ _ _ hPl hPr hfire hlr).2)
         have hPs : ∀ o ∈ splice ops index newOps, P o := by
           intro o ho
           rcases mem_splice _ _ _ _ ho with h1 | h1
           · exact hP o h1
           · -- the pair is adjacent in a well-typed chain
-            have hsplit := list_split_at ops index h
-            have hwt' := hwt
-            rw [hsplit, sem.WT_append] at hwt'
-            obtain ⟨m, _, hmid⟩ := hwt'
-            rw [sem.WT_append] at hmid
-            obtain ⟨m', hpair, _⟩ := hmid
-            simp only [Sem.WT] at hpair
-            exact (hr ru hmem _ _ _ hPl hPr hfire hpair.2.1.symm).1 o h1
+            exact (hr ru hmem _ _ _ hPl hPr hfire (WT_adjacent sem ops index s t h hwt)).1 o h1
         simp only [] at hres
         split at hres
         · obtain ⟨hp2, hw2, ha2⟩ := hh _ _ _ hPs hs.1
@@ -101,46 +98,24 @@ theorem scan_sound_on {O V S E} (sem : Sem O V S) (P : O → Prop) (c : Cfg O E)
 namespace OpSem
 variable {V : Type} (L : OpSem V)
 
-theorem identityRule_mem (ops : List Op) (o : Op) (h : o ∈ identityRule ops) : o ∈ ops := by
-  simp only [identityRule, List.mem_filter] at h
-  exact h.1
-
-theorem homothetyRule_mem (ops : List Op) (o : Op) (h : o ∈ homothetyRule ops) :
-    o ∈ ops ∨ ∃ v s, o = mkHomothety v s := by
-  unfold homothetyRule at h
-  split at h
-  · simp only [] at h
-    split at h
-    · exact .inl h
-    · split at h
-      · exact .inl h
-      · split at h
-        · rw [List.mem_cons] at h
-          rcases h with h | h
-          · exact .inr ⟨_, _, h⟩
-          · exact .inl (List.mem_filter.mp h).1
-        · rw [List.mem_append] at h
-          rcases h with h | h
-          · exact .inl (List.mem_filter.mp h).1
-          · rw [List.mem_singleton] at h
-            exact .inr ⟨_, _, h⟩
-  · exact .inl h
-
-theorem identityRule_sound_on (P : Op → Prop) : L.toSem.ListSoundOn P identityRule := by
+theorem identityRule_sound_on (P : Op → Prop) (hPok : ∀ o, P o → StructOK o) :
+    L.toSem.ListSoundOn P identityRule := by
   intro ops s t hP hwt
-  obtain ⟨hw, ha⟩ := L.identityRule_sound ops s t hwt
+  obtain ⟨_, hw, ha⟩ := L.identityRule_sound ops s t (fun o ho => hPok o (hP o ho)) hwt
   exact ⟨fun o ho => hP o (identityRule_mem ops o ho), hw, ha⟩
 
-theorem homothetyRule_sound_on (P : Op → Prop) (hhom : ∀ v s, P (mkHomothety v s)) :
+theorem homothetyRule_sound_on (P : Op → Prop) (hPok : ∀ o, P o → StructOK o)
+    (hhom : ∀ v s, P (mkHomothety v s)) :
     L.toSem.ListSoundOn P homothetyRule := by
   intro ops s t hP hwt
-  obtain ⟨hw, ha⟩ := L.homothetyRule_sound ops s t hwt
+  obtain ⟨_, hw, ha⟩ := L.homothetyRule_sound ops s t (fun o ho => hPok o (hP o ho)) hwt
   refine ⟨fun o ho => ?_, hw, ha⟩
   rcases homothetyRule_mem ops o ho with h | ⟨v, s', rfl⟩
   · exact hP o h
   · exact hhom v s'
 
-theorem dropIdentities_sound_on (P : Op → Prop) (ru : BRule) (h : L.toSem.RuleSoundOn P ru) :
+theorem dropIdentities_sound_on (P : Op → Prop) (hPok : ∀ o, P o → StructOK o) (ru : BRule)
+    (h : L.toSem.RuleSoundOn P ru) :
     L.toSem.RuleSoundOn P (dropIdentities ru) := by
   intro l r new hl hr hf hlr
   simp only [dropIdentities] at hf
@@ -149,22 +124,23 @@ theorem dropIdentities_sound_on (P : Op → Prop) (ru : BRule) (h : L.toSem.Rule
     simp only [Except.ok.injEq, Option.some.injEq] at hf
     subst hf
     obtain ⟨hp, hw, ha⟩ := h l r new0 hl hr hf0 hlr
-    obtain ⟨hp', hw', ha'⟩ := L.identityRule_sound_on P _ _ _ hp hw
+    obtain ⟨hp', hw', ha'⟩ := L.identityRule_sound_on P hPok _ _ _ hp hw
     exact ⟨hp', hw', fun x hx => by rw [ha' x hx, ha x hx]⟩
   · rename_i hne
     exact absurd hf (hne new)
 
-theorem cfg_rules_sound_on (P : Op → Prop) (red : Op → Except PyErr Op)
+theorem cfg_rules_sound_on (P : Op → Prop) (hPok : ∀ o, P o → StructOK o) (red : Op → Except PyErr Op)
     (hr : ∀ ru ∈ binaryRules red, L.toSem.RuleSoundOn P ru) :
     ∀ ru ∈ (reductionCfg red).rules, L.toSem.RuleSoundOn P ru := by
   intro ru hm
   simp only [reductionCfg, List.mem_map] at hm
   obtain ⟨ru0, hm0, rfl⟩ := hm
-  exact L.dropIdentities_sound_on P ru0 (hr ru0 hm0)
+  exact L.dropIdentities_sound_on P hPok ru0 (hr ru0 hm0)
 
-/-- **`AlgebraicReductionRule.apply` is sound relative to an invariant `P`** of the operands that the
-binary rules preserve and that identities and scalar operators satisfy. -/
-theorem algebraicReduction_sound_on (P : Op → Prop) (hid : ∀ s, P (mkIdentity s))
+/-- **`AlgebraicReductionRule.apply` is sound relative to an invariant `P`** of the operands that implies
+structural well-formedness, that the binary rules preserve and that identities and scalar operators satisfy. -/
+theorem algebraicReduction_sound_on (P : Op → Prop) (hPok : ∀ o, P o → StructOK o)
+    (hid : ∀ s, P (mkIdentity s))
     (hhom : ∀ v s, P (mkHomothety v s)) (red : Op → Except PyErr Op)
     (hr : ∀ ru ∈ binaryRules red, L.toSem.RuleSoundOn P ru)
     (ops res : List Op) (s t : Struct) (hP : ∀ o ∈ ops, P o) (hwt : L.toSem.WT ops s t)
@@ -176,14 +152,14 @@ theorem algebraicReduction_sound_on (P : Op → Prop) (hid : ∀ s, P (mkIdentit
   · simp only [Except.ok.injEq] at hres; subst hres; exact ⟨hP, hwt, fun _ _ => rfl⟩
   · rename_i hlen
     simp only [] at hres
-    obtain ⟨p1, w1, a1⟩ := L.identityRule_sound_on P _ _ _ hP hwt
-    obtain ⟨p2, w2, a2⟩ := L.homothetyRule_sound_on P hhom _ _ _ p1 w1
+    obtain ⟨p1, w1, a1⟩ := L.identityRule_sound_on P hPok _ _ _ hP hwt
+    obtain ⟨p2, w2, a2⟩ := L.homothetyRule_sound_on P hPok hhom _ _ _ p1 w1
     split at hres
     · simp at hres
     · simp at hres
     · rename_i r hscan
-      obtain ⟨p3, w3, a3⟩ := scan_sound_on L.toSem P (reductionCfg red)
-        (L.cfg_rules_sound_on P red hr) (L.homothetyRule_sound_on P hhom) _ _ _ _ _ _ p2 w2 hscan
+      obtain ⟨p3, w3, a3⟩ := scan_sound_on L.toSem P hPok (reductionCfg red)
+        (L.cfg_rules_sound_on P hPok red hr) (L.homothetyRule_sound_on P hPok hhom) _ _ _ _ _ _ p2 w2 hscan
       have hall : ∀ x, L.mem s x → L.toSem.app r x = L.toSem.app ops x :=
         fun x hx => by rw [a3 x hx, a2 x hx, a1 x hx]
       split at hres
